@@ -255,7 +255,7 @@ def _source_tables(source):
     return [node[1] for _, node in dslgen.walk(source) if node[0] == 'table']
 
 
-def check_statement(ctx, engines, raw, data, datakey):
+def check_statement(ctx, engines, raw, data, datakey, share_names=None):
     from vlib import core, dsleval, dslgen
 
     ctx.count('evaluations')
@@ -304,7 +304,7 @@ def check_statement(ctx, engines, raw, data, datakey):
                     return
         ctx.count('nested_limit_cases')
     # every other statement with two references that are never visible together is built with both sharing one name
-    rename = dslgen.shared_names(ast) if core.subseed(0, sig) % 2 else {}
+    rename = dslgen.shared_names(ast) if (core.subseed(0, sig) % 2 if share_names is None else share_names) else {}
     if rename:
         ctx.count('shared_reference_name_cases')
         witness['rename'] = rename
@@ -633,7 +633,7 @@ def run(ctx):
             check_statement(ctx, engines, ast, ordered[k], f'nullfree{k}')
         for ast in DIRECTED:
             for k in range(min(3, len(datasets))):
-                check_statement(ctx, engines, ast, datasets[k], k)
+                check_statement(ctx, engines, ast, datasets[k], k, share_names=k % 2 == 0)
             empty = {**datasets[0], 'B': []}
             check_statement(ctx, engines, ast, empty, 'emptyB')
     finally:
@@ -695,6 +695,12 @@ def _directed():
          g.query(g.reference(a, 'rs'), select=(g.column('rs', 'x'),), where=g.cmp('>', g.column('rs', 'y'), g.lit(0))), 'union'),
         ('set', g.query(g.reference(a, 'rt'), select=(g.column('rt', 'y'),), where=g.cmp('>', g.column('rt', 'x'), g.lit(1))),
          g.query(g.reference(a, 'rt'), select=(g.column('rt', 'x'),)), 'difference'),
+        # two different references (built under one shared name where they are never visible together)
+        ('set', g.query(g.reference(a, 'u1'), select=(g.column('u1', 'x'),)),
+         g.query(g.reference(b, 'u2'), select=(g.column('u2', 'x'),)), 'union'),
+        g.query(g.join(g.reference(g.query(g.reference(b, 'v1'), select=(g.column('v1', 'x'), g.column('v1', 'w'))), 'vq'),
+                       g.reference(a, 'v2'), 'inner', g.cmp('==', g.column('vq', 'x'), g.column('v2', 'x'))),
+                select=(g.column('vq', 'w'), g.column('v2', 'y'))),
     ] + referenced_joins() + nested_sets()
 
 
@@ -752,6 +758,6 @@ def replay(ctx, witness):
     engines = Engines()
     try:
         data = {k: [tuple(r) for r in v] for k, v in witness['data'].items()}
-        check_statement(ctx, engines, dslgen.norm(witness['ast']), data, 'replay')
+        check_statement(ctx, engines, dslgen.norm(witness['ast']), data, 'replay', share_names=bool(witness.get('rename')))
     finally:
         engines.close()
